@@ -82,6 +82,16 @@ func c09Corpus() []c09Item {
    {"name":"A","is_target":true,"min":0,"max":-1,"elements":[{"name":"e1","index":1},{"name":"c2","index":2,"component_index":2,"default":""}]}]},
  "transform_declarations":{"FINAL_OUTPUT":{"object":{"e1":{"array":[{"xpath":"e1"}]},"c2":{"xpath":"c2"}}}}}`,
 		"A<>x?|?|y<>p:q||A<>r1^r2<>:é||A<>?<?>||A<>last<>a:b", "A<>1||")
+	add("c09/edi-escaped-segdelim", `{`+c09Hdr("edi", "")+`,
+ "file_declaration":{"segment_delimiter":"~","element_delimiter":"*","release_character":"?","segment_declarations":[
+   {"name":"A","is_target":true,"min":0,"max":-1,"elements":[{"name":"e1","index":1},{"name":"e2","index":2,"default":"-"}]}]},
+ "transform_declarations":{"FINAL_OUTPUT":{"object":{"e1":{"xpath":"e1","no_trim":true},"e2":{"xpath":"e2"}}}}}`,
+		"A*x?~y*1~A*z??~A*w?~?~~A*?*?~*last?~", "A*a??~A*b?~", "A*1~\nA*2~")
+	add("c09/edi-escaped-lf-segdelim", `{`+c09Hdr("edi", "")+`,
+ "file_declaration":{"segment_delimiter":"\n","element_delimiter":"|","release_character":"\\","segment_declarations":[
+   {"name":"A","is_target":true,"min":0,"max":-1,"elements":[{"name":"e1","index":1}]}]},
+ "transform_declarations":{"FINAL_OUTPUT":{"object":{"e1":{"xpath":"e1","no_trim":true}}}}}`,
+		"A|x\\\ny\r\nA|z\\\\\nA|w\\\n\\\n\n")
 	add("c09/edi-ignorecrlf", `{`+c09Hdr("edi", "")+`,
  "file_declaration":{"segment_delimiter":"~","element_delimiter":"*","ignore_crlf":true,"segment_declarations":[
    {"name":"H"},{"name":"A","is_target":true,"min":0,"max":-1,"elements":[{"name":"e1","index":1}]},{"name":"T","min":0}]},
